@@ -262,3 +262,31 @@ fn c12_metric_composition() {
     core::mem::forget(cat);
     core::mem::forget(tat);
 }
+
+//@H props=C12 kind=bounded tier=quick stubs=no fn=<VisualMetric-as-ObservationMetric>::postprocess_distances bound="3 results"
+//@H clause: post-processing keeps exactly the results that carry an appearance distance or a positional value, in their original order
+#[kani::proof]
+#[kani::unwind(8)]
+fn c12_visual_postprocess_keeps_claims() {
+    let m = VisualMetric { opts: Arc::new(any_opts(any_pos_kind())) };
+    let mut v: Vec<ObservationMetricOk<VisualObservationAttributes>> = Vec::with_capacity(3);
+    let mut keep = [false; 3];
+    for i in 0..3 {
+        let am: Option<f32> = kani::any();
+        let fd: Option<f32> = kani::any();
+        keep[i] = am.is_some() || fd.is_some();
+        v.push(ObservationMetricOk::new(i as u64, 100 + i as u64, am, fd));
+    }
+    let r = m.postprocess_distances(v);
+    kani::cover!(r.len() == 2, "reach/c12_visual_postprocess_keeps_claims");
+    let want: usize = keep.iter().filter(|p| **p).count();
+    assert!(r.len() == want, "C12/visual.postprocess.count: exactly the results with an appearance or positional value are kept");
+    let mut k = 0;
+    for i in 0..3 {
+        if keep[i] {
+            assert!(r[k].from == i as u64, "C12/visual.postprocess.order_and_identity: kept results keep their original order");
+            k += 1;
+        }
+    }
+    core::mem::forget(m);
+}
